@@ -59,7 +59,7 @@ theorem popLast_perm (s : St) (hne : s.arr.length ≠ 0) :
 /-- `Push` returns the next allocation number as the handle. -/
 theorem push_handle (s : St) (v : Nat) (p : Int) : (push s v p).2 = s.idx.length := rfl
 
-@[simp] theorem push_desc (s : St) (v : Nat) (p : Int) : (push s v p).1.desc = s.desc := by
+@[simp] theorem push_cmp (s : St) (v : Nat) (p : Int) : (push s v p).1.cmp = s.cmp := by
   simp [push, heapPush]
 
 @[simp] theorem push_idx_length (s : St) (v : Nat) (p : Int) :
@@ -80,7 +80,7 @@ theorem push_length (s : St) (v : Nat) (p : Int) :
 
 /-! ## `heap.Pop` -/
 
-@[simp] theorem heapPop_desc (s : St) : (heapPop s).1.desc = s.desc := by
+@[simp] theorem heapPop_cmp (s : St) : (heapPop s).1.cmp = s.cmp := by
   simp [heapPop]
 
 @[simp] theorem heapPop_idx_length (s : St) : (heapPop s).1.idx.length = s.idx.length := by
@@ -138,7 +138,7 @@ theorem removePre_at_last (s : St) (i : Nat) (hi : i < s.arr.length) :
     have : s.arr.length - 1 = i := by omega
     rw [this]
 
-@[simp] theorem heapRemove_desc (s : St) (i) : (heapRemove s i).1.desc = s.desc := by
+@[simp] theorem heapRemove_cmp (s : St) (i) : (heapRemove s i).1.cmp = s.cmp := by
   simp [heapRemove_eq]
 
 @[simp] theorem heapRemove_idx_length (s : St) (i) :
@@ -167,7 +167,7 @@ theorem heapRemove_idx_elem (s : St) (i : Nat) :
 
 /-! ## the `remove` closure -/
 
-@[simp] theorem removeHandle_desc (s : St) (h) : (removeHandle s h).desc = s.desc := by
+@[simp] theorem removeHandle_cmp (s : St) (h) : (removeHandle s h).cmp = s.cmp := by
   unfold removeHandle; split <;> simp
 
 @[simp] theorem removeHandle_idx_length (s : St) (h) :
